@@ -230,6 +230,33 @@ func combineContext(c *Ctx) {
 					}
 				}
 			}
+			if why == "" && len(fn.Params) >= 2 {
+				// an explicit early exit for an empty list of others
+				isLenOthers := func(v ssa.Value) bool {
+					call, ok := v.(*ssa.Call)
+					if !ok || len(call.Call.Args) != 1 {
+						return false
+					}
+					b, isB := call.Call.Value.(*ssa.Builtin)
+					return isB && b.Name() == "len" && call.Call.Args[0] == ssa.Value(fn.Params[len(fn.Params)-1])
+				}
+				lifs, lnegs := P.IfsOn(fn, func(cond ssa.Value) bool {
+					b, ok := cond.(*ssa.BinOp)
+					return ok && (b.Op == token.EQL || b.Op == token.NEQ) && either(b, isLenOthers, isZero)
+				})
+				for i, ifi := range lifs {
+					zs := 0
+					if lnegs[i] {
+						zs = 1
+					}
+					if stripNotV(ifi.Cond).(*ssa.BinOp).Op == token.NEQ {
+						zs = 1 - zs
+					}
+					if tp.via(q, ifi, zs) {
+						why = "reached only through len(others) == 0"
+					}
+				}
+			}
 			q.add("PATH", "the primary is returned unchanged only if it is cancelled or there is nothing to combine", why != "", pickS(why != "", why, "the primary context itself is returned although it is live and other contexts were given: their cancellation would not cancel the result"), r)
 		}
 	}
@@ -405,6 +432,20 @@ func conflatedContext(c *Ctx) {
 		if mc, isMC := callArg(ch, 2).(*ssa.MakeClosure); isMC && strings.Contains(mc.Fn.(*ssa.Function).String(), "WaitGroup).Done") {
 			done = true
 		}
+		if !done {
+			// a literal shared by all hooks whose whole effect is one wg.Done()
+			if srcs := P.Sources(callArg(ch, 2)); len(srcs) == 1 {
+				if mc, isMC := srcs[0].(*ssa.MakeClosure); isMC {
+					lf := mc.Fn.(*ssa.Function)
+					all := an.AllInstrs(lf, func(in ssa.Instruction) bool { return an.CallCommonOf(in) != nil })
+					if len(all) == 1 && P.CalleeName(an.CallCommonOf(all[0])) == "(*sync.WaitGroup).Done" && !P.InCycle(all[0]) {
+						if _, isGo := all[0].(*ssa.Go); !isGo && len(an.AllInstrs(lf, func(in ssa.Instruction) bool { _, ok := in.(*ssa.Store); return ok })) == 0 {
+							done = true
+						}
+					}
+				}
+			}
+		}
 		q.add("PROV", "the hook is wg.Done, registered on the input, cleaned up with the result", res && inp && done, "ChainAfterFunc(result, contexts[i], wg.Done)", ch)
 		// live inputs only: Err() == nil edge, and the same Err() decides
 		errs := an.AllInstrs(fn, func(in ssa.Instruction) bool {
@@ -475,6 +516,75 @@ func conflatedContext(c *Ctx) {
 		q.undecided("PATH", "guard count", "guard Add/Done or the waiter goroutine not found")
 		return
 	}
+	// "at least one input is live" as remembered for the early exit: a flag that starts false and is only ever set to
+	// true, or a counter that starts at 0 and is only ever incremented - in both cases on the live side of the Err()
+	// test and nowhere else (a flag overwritten per input would report the last input only)
+	{
+		errs := an.AllInstrs(fn, func(in ssa.Instruction) bool {
+			call, ok := in.(*ssa.Call)
+			return ok && call.Call.IsInvoke() && call.Call.Method.Name() == "Err"
+		})
+		for _, b := range fn.Blocks {
+			ifi, isIf := b.Instrs[len(b.Instrs)-1].(*ssa.If)
+			if !isIf || P.InCycle(ifi) || !b.Dominates(gos[0].Block()) {
+				continue
+			}
+			var mem *ssa.Phi
+			cnd := stripNotV(ifi.Cond)
+			if ph, ok := cnd.(*ssa.Phi); ok && isBoolT(ph) {
+				mem = ph
+			} else if bo, ok := cnd.(*ssa.BinOp); ok {
+				for _, v := range []ssa.Value{bo.X, bo.Y} {
+					if ph, ok := v.(*ssa.Phi); ok && isIntT(ph) {
+						mem = ph
+					}
+				}
+			}
+			if mem == nil {
+				continue
+			}
+			good, why := true, "starts false / 0, set or incremented only for a live input"
+			seen := map[*ssa.Phi]bool{}
+			var walk func(ph *ssa.Phi)
+			walk = func(ph *ssa.Phi) {
+				if seen[ph] {
+					return
+				}
+				seen[ph] = true
+				for i, e := range ph.Edges {
+					pred := ph.Block().Preds[i]
+					last := pred.Instrs[len(pred.Instrs)-1]
+					if p2, ok := e.(*ssa.Phi); ok {
+						walk(p2)
+						continue
+					}
+					live := len(errs) == 1 && P.InCycle(last) && P.Before(fn, an.Is(errs[0]), last) && q.onlyAfterSuccess(errs[0], last)
+					if bv, ok := constBool(e); ok {
+						if bv && !live {
+							good, why = false, "the flag is set on a path that has not seen a live input"
+						}
+						if !bv && P.InCycle(last) {
+							good, why = false, "the flag is cleared inside the loop: an earlier live input is forgotten"
+						}
+						continue
+					}
+					if k, ok := constInt(e); ok && k == 0 && !P.InCycle(last) {
+						continue
+					}
+					if inc, ok := e.(*ssa.BinOp); ok && inc.Op == token.ADD && isIntT(inc) {
+						_, xs := inc.X.(*ssa.Phi)
+						k, isK := constInt(inc.Y)
+						if xs && seen[inc.X.(*ssa.Phi)] && isK && k > 0 && live {
+							continue
+						}
+					}
+					good, why = false, "what the early exit tests is overwritten with "+e.String()+": it no longer says whether any input was live"
+				}
+			}
+			walk(mem)
+			q.add("PATH", "the early exit is taken only if no input at all was live", good, why, ifi)
+		}
+	}
 	okg := P.Before(fn, an.Is(guardAdd), chains[0]) && !P.InCycle(guardDone) && !P.PathExists(fn, guardDone, an.In(chains), nil, nil) && P.Before(fn, an.Is(guardDone), gos[0])
 	q.add("PATH", "a guard count keeps the counter positive while inputs are wired", okg, pickS(okg, "Add(1) before the loop, Done() after it and before the waiter starts", "the guard count is released before every input is wired: an input cancelled during construction could cancel the result prematurely"), guardDone)
 	if mc, ok := gos[0].(*ssa.Go).Call.Value.(*ssa.MakeClosure); ok {
@@ -497,12 +607,20 @@ func conflatedContext(c *Ctx) {
 	}
 	if succ != nil {
 		var trues []ssa.Instruction
+		nonConst := false
 		for _, st := range P.CellStores(succ) {
-			if b, isB := constBool(st.Val); isB && b {
-				trues = append(trues, st)
+			// a store of a join of constants is judged arm by arm (the flag handed back by a helper)
+			for _, t := range storeTuples(st) {
+				if b, isB := constBool(t.val); isB {
+					if b {
+						trues = append(trues, t.site)
+					}
+				} else {
+					nonConst = true
+				}
 			}
 		}
-		okt := len(trues) == 1 && P.Before(fn, an.Is(gos[0]), trues[0])
+		okt := len(trues) == 1 && !nonConst && P.Before(fn, an.Is(gos[0]), trues[0])
 		q.add("PATH", "if no input is live the result is cancelled at once", okt, pickS(okt, "success is set only after the waiter was started; otherwise the deferred closure cancels", "success can be set without the waiter having been started"), trues...)
 	}
 	pn := an.AllInstrs(fn, an.IsPanic)
